@@ -204,6 +204,8 @@ def call_builtin(I, name, args, kwargs, env):
             raise
     if name == 'print':
         return None   # dropped by extraction (DESIGN 2.2)
+    if name == 'open':
+        return I.builtin_open(args, kwargs)
     if name == 'type':
         (x,) = args
         if isinstance(x, SObj):
@@ -279,9 +281,14 @@ def isinstance_one(I, v, ty):
         if n == 'float':
             return False
         raise Unsupported(f'isinstance against builtin {n}')
-    from .interp import BAD_ELEM
+    from .interp import BAD_ELEM, Opaque
     if v is BAD_ELEM:
         return False
+    if isinstance(v, Opaque):
+        key = ('isinstance', getattr(ty, 'qualname', repr(ty)))
+        if key not in v.attrs:
+            v.attrs[key] = I.fresh(f'isinstance({v.tag})', 'bool')
+        return v.attrs[key]
     if isinstance(ty, ClassInfo):
         if isinstance(v, SObj):
             return v.cls.is_subclass_of(ty)
